@@ -281,6 +281,7 @@ def stage_a(prop: str, thorough: bool = False) -> StageA:
         if rc != 0:
             st.log += f"lake build {mod} failed:\n" + out[-8000:]
         if st.ok_proofs:
+            run(["lake", "build", "SuitVerif.AuditCmd"], cwd=LEAN)      # the audit command itself (not imported by any model file): built on a fresh tree
             src = f"import {mod}\nimport SuitVerif.AuditCmd\n#audit_json SuitVerif.Props.{prop}\n"
             with tempfile.NamedTemporaryFile("w", suffix=".lean", dir=LEAN, delete=False) as fh:
                 fh.write(src)
